@@ -106,8 +106,9 @@ CasWin(t) ==        \* compare_exchange_strong(0 -> 1) succeeds
   /\ UNCHANGED << ptrs, ptrsWriter, live, res, faults >>
 
 CasLose(t) ==       \* the CAS fails (somebody else owns or finished init): a load(OCasFail)
-  /\ pc[t] = "cas" /\ state # 0
-  /\ LoadBy(t, OCasFail)
+  /\ pc[t] = "cas" /\ state # 0     \* whose value goes to `expected`, which the code never reads:
+  /\ seen' = seen                   \* the local `state` keeps the value of the first load
+  /\ hb' = [hb EXCEPT ![t] = IF IsAcquire(OCasFail) THEN @ \/ stPub ELSE @]
   /\ Goto(t, "spin")
   /\ Log(t, "CasLose")
   /\ UNCHANGED << state, stPub, ptrs, ptrsWriter, live, res, faults >>
